@@ -1,51 +1,19 @@
-import Verif.Base.Pack
-import Verif.Spec.HtmlRefs
-import Verif.Spec.CssUnits
+import Verif.Spec.TableChecks
 import Verif.Gen.HashNames
 import Verif.Gen.Html5Entities
 /-!
 # C17 — whole-table checks of the hash name tables and of the (independent) HTML5 entity table
 
-Checker definitions and their `decide +kernel` evaluation; `Props/C17.lean` states the theorems.
+`decide +kernel` evaluations of the checkers of `Spec/TableChecks.lean`; `Props/C17.lean` states the theorems.
 -/
 namespace Verif.Proofs.C17
-open Verif Verif.Gen Verif.Spec.HtmlRefs Verif.Spec.CssUnits
+open Verif Verif.Gen Verif.Spec.TableChecks
 
 set_option maxRecDepth 1000000
-
-/-- the constant identifier spells the name it stands for: same length, letters/digits equal up to case,
-    `_` for every other character -/
-def identMatches : List Nat → List Nat → Bool
-  | [], [] => true
-  | c :: cs, n :: ns =>
-    (if isAlnum n then lowerCp c == lowerCp n else c == 95) && identMatches cs ns
-  | _, _ => false
-
-/-- (a leading `-` of a name — vendor prefixes such as `-ms-filter` ↔ `Ms_Filter` — has no counterpart) -/
-def hashRowOk (row : Nat × Nat) : Bool :=
-  identMatches (unpack row.1) ((unpack row.2).dropWhile (fun c => !isAlnum c)) && row.2 != 0
 
 theorem hash_html_all : HashNames.html.all hashRowOk = true := by decide +kernel
 theorem hash_css_all : HashNames.css.all hashRowOk = true := by decide +kernel
 theorem hash_svg_all : HashNames.svg.all hashRowOk = true := by decide +kernel
-
-/-- `[0-9A-Za-z]+ ;?` -/
-def nameShape : List Nat → Bool
-  | [] => false
-  | [c] => isAlnum c
-  | [c, d] => isAlnum c && (isAlnum d || d == cSemi)
-  | c :: r => isAlnum c && nameShape r
-
-/-- a non-empty list of Unicode scalar values other than NUL -/
-def cpsOk : List Nat → Bool
-  | [] => false
-  | [c] => 0 < c && c ≤ 0x10FFFF && !(0xD800 ≤ c && c ≤ 0xDFFF)
-  | c :: r => 0 < c && c ≤ 0x10FFFF && !(0xD800 ≤ c && c ≤ 0xDFFF) && cpsOk r
-
-def html5NameOk (first : Nat) (e : Nat × List Nat) : Bool :=
-  match unpack e.1 with
-  | [] => false
-  | c :: r => c == first && nameShape (c :: r) && cpsOk e.2
 
 theorem html5_table_all : Html5Entities.buckets.all (fun b => b.2.all (html5NameOk b.1)) = true := by
   decide +kernel
